@@ -248,6 +248,15 @@ package argmapper
 //@   pure
 //@   ensures result == ite(v.Name != "", 1, 2)
 
+// valueOrZero (C15): a value that is set is rendered as it is, whatever its
+// dynamic type; only an unset value is replaced, by the zero value of its type
+//@ func (*Value).valueOrZero
+//@   requires v != nil && imp(!valid(v.Value), v.Type != nil)
+//@   ensures  [set-value-rendered-unchanged] imp(valid(v.Value), result == v.Value)
+//@   ensures  [unset-value-rendered-as-zero] imp(!valid(v.Value), result == zeroOf(v.Type))
+//@   assigns  nothing
+//@   modifies nothing
+
 // vpos: ghost position of struct field i in the values list
 //@ ghostfield ValueSet.vpos fmap[int,int]
 // vsOK: a value set mirrors struct type T (pointer-stripped) exactly
